@@ -362,6 +362,7 @@ type Exec struct {
 	parent   *Exec
 	depth    int
 	curBlock *ssa.BasicBlock
+	curIdx   int // index in curBlock of the instruction being executed
 	curReach string // reach term at the current instruction (entry reach ∧ earlier asserted conditions are global facts)
 	curState *State
 	writes   map[*ssa.BasicBlock]map[string]bool
@@ -601,12 +602,14 @@ func (ex *Exec) run(entryReach string, entryState *State) {
 		}
 		ex.curReach = reach
 		ex.curState = st
-		for _, ins := range b.Instrs {
+		for idx, ins := range b.Instrs {
 			if _, ok := ins.(*ssa.Phi); ok {
 				continue
 			}
+			ex.curIdx = idx
 			ex.instr(ins)
 		}
+		ex.curIdx = len(b.Instrs)
 		ex.out[b] = ex.curState
 		ex.outReach[b] = ex.curReach
 		// back-edges out of b
